@@ -146,4 +146,53 @@ Proof.
   apply Z.ltb_ge in Hc. rewrite Hc. eexists. split; [|split; [|reflexivity]]; reflexivity.
 Qed.
 
+(* ---------- C07: the consume lag ---------- *)
+(* an event younger than the lag is received and parked: the consumer waits on the workflow clock until the event is [lag] old;
+   neither filter nor handler nor Ack occurs in the operation *)
+Lemma young_event_is_parked inst u idx e s :
+  next_event (unit_topic u) (w_log (o_w s)) 0 (get_cursor (o_w s) u) = Some (idx, e) ->
+  unit_lag c u > 0 -> e_created e + unit_lag c u > w_now (o_w s) ->
+  consume_iter c inst u s =
+  (d <- dispatch KRV true ;;
+   match d with
+   | DoOk | DoStale =>
+     emit (TRecv e) ;;; emit (TCall KTW [e_created e + unit_lag c u] RBlocked []) ;;; ret (PLag idx e (e_created e + unit_lag c u))
+   | _ => emit (TCall KRV [] (disp_res d) []) ;;; disp_ret d PRun
+   end) s.
+Proof.
+  intros En Hl Hy. unfold consume_iter. unfold bind at 1, get_w. cbn [fst snd]. unfold bind at 1, lease_live. cbn [fst snd].
+  rewrite En. assert (E1 : (unit_lag c u >? 0) = true) by (apply Z.gtb_lt; lia).
+  assert (E2 : (e_created e + unit_lag c u >? w_now (o_w s)) = true) by (apply Z.gtb_lt; lia). cbv zeta. rewrite E1, E2. cbn [andb]. reflexivity.
+Qed.
+
+(* while the deadline has not been reached the parked consumer keeps waiting: no handler, no Ack *)
+Lemma lag_not_elapsed_keeps_waiting inst u idx e deadline s :
+  o_lease s = true -> o_dead s = false -> deadline > w_now (o_w s) ->
+  proc_op c inst u (PLag idx e deadline) s = (emit (TCall KTW [deadline] RBlocked []) ;;; ret (PLag idx e deadline)) s.
+Proof.
+  intros Hl Hd Hy. unfold proc_op. unfold bind at 1, get_w. cbn [fst snd]. unfold bind at 1, lease_live. cbn [fst snd].
+  rewrite Hl, Hd. cbn [andb negb]. assert (E : (deadline >? w_now (o_w s)) = true) by (apply Z.gtb_lt; lia). rewrite E. reflexivity.
+Qed.
+
+(* the handler starts only once the deadline has passed (or the role was lost: then it does not start at all) *)
+Lemma lag_elapsed_then_handled inst u idx e deadline s :
+  o_lease s = true -> o_dead s = false -> deadline <= w_now (o_w s) ->
+  proc_op c inst u (PLag idx e deadline) s =
+  (emit (TCall KTW [deadline] ROk []) ;;; guarded c inst u true (after_lag c inst u idx e)) s.
+Proof.
+  intros Hl Hd Hy. unfold proc_op. unfold bind at 1, get_w. cbn [fst snd]. unfold bind at 1, lease_live. cbn [fst snd].
+  rewrite Hl, Hd. cbn [andb negb]. assert (E : (deadline >? w_now (o_w s)) = false) by (rewrite Z.gtb_ltb; apply Z.ltb_ge; lia).
+  rewrite E. reflexivity.
+Qed.
+
+Lemma lag_wait_cancelled_not_handled inst u idx e deadline s :
+  o_lease s = false \/ o_dead s = true ->
+  proc_op c inst u (PLag idx e deadline) s =
+  (emit (TCall KTW [deadline] RCancel []) ;;; guarded c inst u true (fail ECancel)) s.
+Proof.
+  intros H. unfold proc_op. unfold bind at 1, get_w. cbn [fst snd]. unfold bind at 1, lease_live. cbn [fst snd].
+  assert (E : (o_lease s && negb (o_dead s)) = false) by (destruct H as [-> | ->]; [reflexivity|apply Bool.andb_false_r]).
+  rewrite E. reflexivity.
+Qed.
+
 End HF.
